@@ -6,7 +6,7 @@ import vyper.compiler.output as output
 from vyper.compiler.input_bundle import FileInput, InputBundle, JSONInput, PathLike
 from vyper.compiler.phases import CompilerData
 from vyper.compiler.settings import Settings, anchor_settings, get_global_settings
-from vyper.exceptions import StructureException
+from vyper.exceptions import CompilerPanic, StructureException
 from vyper.typing import OutputFormats, StorageLayout
 
 OUTPUT_FORMATS = {
@@ -133,7 +133,11 @@ def outputs_from_compiler_data(
         # the compiler's passes are recursive over the AST / IR; a
         # pathologically nested source (e.g. an expression with hundreds of
         # chained operators) exhausts the python stack. report a diagnostic
-        # instead of a raw RecursionError.
+        # instead of a raw RecursionError -- but only when the source really
+        # is deeply nested, so that runaway recursion in a compiler pass still
+        # surfaces as an internal error.
+        if not _is_deeply_nested(compiler_data):
+            raise CompilerPanic("python recursion limit reached in the compiler") from None
         exc = StructureException(
             "Source code is too deeply nested for the compiler (python "
             "recursion limit reached). Split large expressions into several "
@@ -143,6 +147,27 @@ def outputs_from_compiler_data(
             exc_handler(str(compiler_data.file_input.path), exc)
             return {}
         raise exc from None
+
+
+_DEEP_NESTING = 100
+
+
+def _is_deeply_nested(compiler_data: CompilerData) -> bool:
+    try:
+        module = compiler_data.vyper_module
+    except RecursionError:
+        # the parser itself ran out of stack
+        return True
+    except Exception:
+        return False
+    # iterative walk: (node, depth)
+    stack = [(module, 0)]
+    while len(stack) > 0:
+        node, depth = stack.pop()
+        if depth >= _DEEP_NESTING:
+            return True
+        stack.extend((child, depth + 1) for child in node.get_children())
+    return False
 
 
 def _outputs_from_compiler_data(
